@@ -14,7 +14,8 @@
 (*   End, Reset                                                                                            *)
 (* Every Obs must conform to AbsOut(stream) - so all segmentations of a stream agree with the one result   *)
 (* the encoding determines (segmentation independence), what was handed over is exactly what was encoded,  *)
-(* invalid length information was rejected, and no call hung or threw.  mode = fuzz (mutated streams whose *)
+(* invalid length information was rejected, a message larger than a cap was answered with an error / a    *)
+(* close and (client; server head) never handed over, and no call hung or threw.  mode = fuzz (mutated streams whose *)
 (* meaning is unknown) demands only the last part.                                                         *)
 EXTENDS TraceBase, HttpAbs
 
@@ -34,9 +35,9 @@ Conforms(ev) ==
          LET M == MsgsOf(exp)  D == ev.msgs IN
          /\ Len(D) >= Len(M)
          /\ \A k \in 1..Len(M) : SameMsg(D[k], M[k])
-         /\ (Len(D) > Len(M) => \/ LastT(exp) = "any"
+         /\ (Len(D) > Len(M) => \/ LastT(exp) \in {"any", "over"}
                                 \/ LastT(exp) = "msgopt" /\ SameMsg(D[Len(M) + 1], exp[Len(exp)]))
-         /\ (LastT(exp) = "reject" => ev.err)
+         /\ (LastT(exp) \in {"reject", "over"} => ev.err)
          /\ (LastT(exp) = "msgopt" /\ Len(D) = Len(M) => ev.err)
 
 EvBegin == /\ IsEv("Begin")
